@@ -351,6 +351,12 @@ def r5(ctx):
         a1 = Slicer(ctx.w).atoms(b, t["args"][1])
         c1 = op_const(t["args"][1])
         ok = "field:" + K + "recv_buf_cap" in a0 and ("field:" + T + "recv_buf" in a1 or (c1 is not None and c1.get("v") == 0))
+        if ok and c1 is None:
+            # the occupancy is the buffer's length as it is now - not a figure corrected by what was just read (split_to already removed it)
+            o1 = origin(b, t["args"][1])
+            while o1["k"] == "cast":
+                o1 = o1["o"]
+            ok = o1["k"] == "call" and re.search(r"::len$", o1["t"]["f"]) is not None and _on_field(b, o1["t"]["args"][0], T + "recv_buf")
         ctx.inst(R, f"{b.id}:advertised_window-args#{nth(cnt, (b.id, 'aw'))}", ok, t["s"], "advertised_window(recv_buf_cap, recv_buf.len())" if ok else
                  "advertised_window is called with arguments other than (recv_buf_cap, recv_buf.len())")
     ctx.floor(R, 8)
